@@ -81,9 +81,10 @@ claim('C02',
       "cdiv_r_ui: return value |r| and stored remainder follow the rounding rule (d - t exactly when the truncated remainder t is non-zero and the sign "
       "condition holds), DIVIDE_BY_ZERO iff d == 0, over an ASSUMED mpn_mod_1. mpz_{t,f,c}div_q_ui and _qr_ui (all alias partitions) over an ASSUMED mpn_divrem_1: "
       "the adjustment |q| = |q_trunc| + 1 is PROVED on the limbs (MPN_INCR_U loop: trailing all-ones limbs become 0, the next limb is incremented, the rest unchanged), "
-      "applied exactly when r != 0 and the sign condition holds; quotient size and sign, remainder sign, return value |r|.",
+      "applied exactly when r != 0 and the sign condition holds; quotient size and sign, remainder sign, return value |r|. mpz_divisible_2exp_p: 1 exactly when the low d bits of |a| are "
+      "zero (witness limb for the answer 0), only 0 divisible when d reaches past the top limb.",
       TB + "In the floor/ceiling glue mpz_tdiv_qr/q/r are ASSUMED (uninterpreted quotient/remainder with sgn r in {0, sgn n}, |r| < |d|); values are 64-bit tokens for the interpreted "
-      "+/- steps. NOT covered: the quotient/remainder VALUES of the truncating family (mpn_tdiv_qr is assumed), all _2exp forms, mpn_tdiv_qr/divrem/divrem_1/mod_1, divexact/divisible/congruent, "
+      "+/- steps. NOT covered: the quotient/remainder VALUES of the truncating family (mpn_tdiv_qr is assumed), all _2exp forms, mpn_tdiv_qr/divrem/divrem_1/mod_1, divexact, divisible_p/_ui_p, congruent_*, "
       "and the word-division primitives (undecided by SAT, DESIGN 8).", technique='contract-based glue proof against assumed callee contracts (value tokens, CBMC)')
 claim('C17',
       "mpz_inp_raw: for EVERY 4-byte header the body region lies inside the (re)allocated block (no out-of-bounds write for any byte stream), the header "
